@@ -69,7 +69,7 @@ Definition r_fl : FL R :=
      fl_atan := atan; fl_exp := exp; fl_ln := ln;
      fl_atan2 := r_atan2; fl_rem_euclid := r_rem_euclid;
      fl_bits_eq := r_eqb;
-     fl_rand := fun _ => 0; fl_mix := fun _ _ => 0 |}.
+     fl_rand := fun _ => 0; fl_mix := fun _ _ => 0; fl_quadrant := fun _ => Q0 |}.
 
 (* ---- point semantics over R (mirrors f32_un / f32_bin of F32Sem.v) ---- *)
 Definition r_un (u : uop) (a : R) : R :=
